@@ -74,6 +74,8 @@ def check(ctx):
             if outcome == "panic":
                 ctx.violations.append({"kind": "the generator panicked", "package": name, "source": kind, "flags": fl, "panic": detail[:1500], "spec": spec})
                 continue
+            if outcome == "ok-nothing-written":
+                continue
             if outcome == "error":
                 if kind == "fixture":
                     ctx.violations.append({"kind": "a fixture spec of the repository is no longer generated", "package": name, "flags": fl, "error": detail, "spec": spec})
